@@ -124,7 +124,9 @@ def best_own(eng, st, trial, direction, v):
     allnan = qforall([k], z3.Implies(has, f_is_nan(val)), patterns=[has])
     maxi = direction.term == 2
     beats = z3.If(maxi, f_lt(v.term, val), f_lt(val, v.term))
-    return SV(KBool, z3.If(allnan, f_is_nan(v.term), z3.And(z3.Not(f_is_nan(v.term)),
+    k2 = z3.Int("bo_k2")
+    attained = z3.Exists([k2], z3.And(eng.dict_has(st, d, SV(KInt, k2)), eng.dict_get(st, d, SV(KInt, k2)).term == v.term))
+    return SV(KBool, z3.If(allnan, f_is_nan(v.term), z3.And(z3.Not(f_is_nan(v.term)), attained,
                                                            qforall([k], z3.Implies(z3.And(has, z3.Not(f_is_nan(val))), z3.Not(beats)), patterns=[has]))))
 
 
@@ -249,8 +251,22 @@ R.spec(SHA, "_is_trial_promotable_to_next_rung", props=["C16", "C13"],
        cases=[case("ok", ensures=[
            # a value that no competing value beats is always promotable (never pruned by the rung test)
            "implies(strictly_better_than_all_others(value, old_list(competing_values), study_direction), result)",
+           # functional form (direction-parametric): promotable iff at most max(n // eta - 1, 0) competing values are
+           # strictly better
+           "result == (count_better(old_list(competing_values), value, study_direction) <= max(len(competing_values) // reduction_factor - 1, 0))",
+           "only_row_changed(competing_values)", "len(competing_values) == old(len(competing_values))",
        ])],
        modifies=["L:e:list<float>"])
+
+
+@R.specfunc()
+def count_better(eng, st, lst, value, direction):
+    """Number of list entries strictly better than `value`: below it when minimising, above it when maximising."""
+    from pyvc import lib
+    _, e_ = eng.lnames(lst.kind)
+    row = z3.simplify(eng.harr(st, e_)[lst.term])
+    n = eng.list_len(st, lst)
+    return SV(KInt, z3.If(direction.term == 2, lib.count_gt_f(row, n, value.term), lib.count_lt_f(row, n, value.term)))
 
 
 @R.specfunc()
@@ -332,11 +348,11 @@ def wrapped_decision(eng, st, pruner, study, trial):
 
 
 def _rank(eng, st, d, k):
+    """Number of reported steps below k (a function of the key SET of the dict)."""
     from pyvc import lib
-    ks = eng.dict_keyseq(st, d)
-    _, e_ = eng.lnames(ks.kind)
-    row = z3.simplify(eng.harr(st, e_)[ks.term])
-    return lib.count_less(row, eng.list_len(st, ks), k)
+    eng.dict_keyseq(st, d)      # makes the link between the enumeration list.sort() sees and the key set available
+    h, _, _ = eng.dnames(d.kind)
+    return lib.rank_in_set(z3.simplify(eng.harr(st, h)[d.term]), k)
 
 
 @R.specfunc()
@@ -366,6 +382,118 @@ R.spec(PAT, "PatientPruner.prune", props=["C16", "C13"], types={"study": "Study"
        cases=[case("nothing-reported", when="len(trial.intermediate_values) == 0", returns="False"),
               case("inside-the-patience-window", when="len(trial.intermediate_values) <= self._patience + 1", returns="False"),
               case("ok", ensures=[
-                  "implies(result, patience_exceeded(trial, self._patience, self._min_delta, study._directions[0]))",
-                  "implies(result and self._wrapped_pruner is not None, wrapped_decision(self._wrapped_pruner, study, trial))"])],
+                  "result == (patience_exceeded(trial, self._patience, self._min_delta, study._directions[0]) and "
+                  "(self._wrapped_pruner is None or wrapped_decision(self._wrapped_pruner, study, trial)))"])],
        modifies=[])
+
+
+@R.specfunc()
+def only_row_changed(eng, st, lst):
+    """Frame inside the float-list heap: every list other than `lst` keeps its contents and length."""
+    ctx = eng.spec_stack[-1]
+    n_, e_ = eng.lnames(lst.kind)
+    o = z3.Int("orc_o")
+    pre_e, pre_n = ctx.pre_heap.get(e_, st.heap0.get(e_)), ctx.pre_heap.get(n_, st.heap0.get(n_))
+    cur_e, cur_n = eng.harr(st, e_), eng.harr(st, n_)
+    return SV(KBool, qforall([o], z3.Implies(o != lst.term, z3.And(cur_e[o] == pre_e[o], cur_n[o] == pre_n[o])), patterns=[cur_e[o], cur_n[o]]))
+
+
+# --- C13: maximising f is minimising -f -- mirror lemmas over the direction-parametric contracts ------------------
+@R.specfunc()
+def count_defs(eng, st, lst, k, x):
+    """Instances at k of the defining equations of count_lt_f / count_gt_f over the list's current contents
+    (count(row, 0, x) = 0; count(row, k+1, x) = count(row, k, x) + [row[k] < x] resp. [row[k] > x])."""
+    from pyvc import lib
+    _, e_ = eng.lnames(lst.kind)
+    row = z3.simplify(eng.harr(st, e_)[lst.term])
+    kk, xx = k.term, x.term
+    zero = z3.IntVal(0)
+    facts = [lib.count_lt_f(row, zero, xx) == 0, lib.count_gt_f(row, zero, xx) == 0,
+             z3.Implies(kk >= 0, z3.And(
+                 lib.count_lt_f(row, kk + 1, xx) == lib.count_lt_f(row, kk, xx) + z3.If(f_lt(row[kk], xx), 1, 0),
+                 lib.count_gt_f(row, kk + 1, xx) == lib.count_gt_f(row, kk, xx) + z3.If(f_lt(xx, row[kk]), 1, 0)))]
+    st.assume(z3.And(facts))
+    return SV(KBool, z3.BoolVal(True))
+
+
+@R.specfunc()
+def count_lt_prefix(eng, st, lst, k, x):
+    from pyvc import lib
+    _, e_ = eng.lnames(lst.kind)
+    return SV(KInt, lib.count_lt_f(z3.simplify(eng.harr(st, e_)[lst.term]), k.term, x.term))
+
+
+@R.specfunc()
+def count_gt_prefix(eng, st, lst, k, x):
+    from pyvc import lib
+    _, e_ = eng.lnames(lst.kind)
+    return SV(KInt, lib.count_gt_f(z3.simplify(eng.harr(st, e_)[lst.term]), k.term, x.term))
+
+
+_MIRROR_LISTS = ["l is not m", "len(l) == len(m)", "len(l) >= 1", "not math_isnan(v)",
+                 "forall(lambda i: implies(0 <= i and i < len(l), not math_isnan(l[i]) and m[i] == -l[i]), trigger=l[i])",
+                 "forall(lambda i: implies(0 <= i and i < len(m), not math_isnan(m[i]) and m[i] == -l[i]), trigger=m[i])"]
+
+R.lemma("promotable-mirror", """
+    k = 0
+    while k < len(l):
+        k += 1
+    r1 = _is_trial_promotable_to_next_rung(v, l, rf, StudyDirection.MAXIMIZE)
+    r2 = _is_trial_promotable_to_next_rung(-v, m, rf, StudyDirection.MINIMIZE)
+    assert r1 == r2
+""", module="optuna.pruners._successive_halving",
+        params={"l": "list[float]", "m": "list[float]", "v": "float", "rf": "int"},
+        requires=_MIRROR_LISTS + ["rf >= 2", "in_list(v, l)", "in_list(-v, m)"],
+        loops={0: loop(invariant=["0 <= k and k <= len(l)", "count_defs(l, k, v) and count_defs(m, k, -v)",
+                                  "count_gt_prefix(l, k, v) == count_lt_prefix(m, k, -v)"])},
+        modifies=["L:e:list<float>"],
+        props=["C13"], note="rung promotion: maximising over values equals minimising over their negations (count of better "
+                            "values proved mirror-symmetric by induction over the list, then the two contracts)")
+
+
+@R.specfunc()
+def mirrored_trials(eng, st, t, u):
+    """u reported, at exactly the same steps, the negations of what t reported."""
+    d1, d2 = _iv(eng, st, t), _iv(eng, st, u)
+    k = z3.Int("mt_k")
+    kk = SV(KInt, k)
+    h1, h2 = eng.dict_has(st, d1, kk), eng.dict_has(st, d2, kk)
+    v1, v2 = eng.dict_get(st, d1, kk).term, eng.dict_get(st, d2, kk).term
+    return SV(KBool, z3.And(eng.dict_size(st, d1) == eng.dict_size(st, d2),
+                            qforall([k], z3.And(h1 == h2, z3.Implies(h1, v2 == f_neg(v1))), patterns=[h1, h2])))
+
+
+R.lemma("threshold-mirror", """
+    a = p.prune(study, t)
+    b = q.prune(study2, u)
+    assert a == b
+""", module="optuna.pruners._threshold",
+        params={"p": "ThresholdPruner", "q": "ThresholdPruner", "t": "FrozenTrial", "u": "FrozenTrial", "study": "Study", "study2": "Study"},
+        requires=["p._interval_steps >= 1", "p._n_warmup_steps >= 0", "steps_nonneg(t)", "steps_nonneg(u)", "mirrored_trials(t, u)",
+                  "q._interval_steps == p._interval_steps", "q._n_warmup_steps == p._n_warmup_steps",
+                  "q._lower == -p._upper", "q._upper == -p._lower"],
+        props=["C13"], note="threshold pruner with mirrored bounds decides identically on negated reports")
+
+
+R.lemma("patient-mirror", """
+    a = p.prune(study, t)
+    b = q.prune(study2, u)
+    assert a == b
+""", module="optuna.pruners._patient",
+        params={"p": "PatientPruner", "q": "PatientPruner", "t": "FrozenTrial", "u": "FrozenTrial", "study": "Study", "study2": "Study"},
+        requires=["p._patience >= 0", "p._min_delta >= 0.0", "q._patience == p._patience", "q._min_delta == p._min_delta",
+                  "mirrored_trials(t, u)", "study._directions[0] == StudyDirection.MAXIMIZE", "study2._directions[0] == StudyDirection.MINIMIZE",
+                  "len(study._directions) == 1 and len(study2._directions) == 1",
+                  "(p._wrapped_pruner is None) == (q._wrapped_pruner is None)",
+                  # the wrapped pruners are themselves mirror-symmetric
+                  "implies(p._wrapped_pruner is not None, wrapped_decision(p._wrapped_pruner, study, t) == wrapped_decision(q._wrapped_pruner, study2, u))"],
+        props=["C13"], note="patience test: maximising on reports equals minimising on their negations")
+
+
+R.lemma("best-own-mirror", """
+    a = _get_best_intermediate_result_over_steps(t, StudyDirection.MAXIMIZE)
+    b = _get_best_intermediate_result_over_steps(u, StudyDirection.MINIMIZE)
+    assert b is -a
+""", module="optuna.pruners._percentile", params={"t": "FrozenTrial", "u": "FrozenTrial"},
+        requires=["len(t.intermediate_values) > 0", "mirrored_trials(t, u)"],
+        props=["C13"], note="the best own intermediate value under maximisation is minus the best of the negated reports under minimisation")
